@@ -528,6 +528,48 @@ def sites_part(ck, tier, model_ok):
                        "impl": {k: v[:3] for k, v in res[0].items() if isinstance(v, list)}, "model": str(vals[0])[:300]})
 
 
+def depth_repeat_part(ck, tier):
+    """calculateMaxDepth (service/system_analysis_service.go) on random graphs with overlapping cycles and tails, repeated
+    in-process (every range over a Go map takes a fresh random order): the value must not vary."""
+    if not getattr(ck, "go_ok", False):
+        return 0
+    rng = ck.rng
+    graphs = []
+    for _ in range(60 if tier == "thorough" else 18):
+        n = rng.randint(5, 11)
+        edges = set()
+        hub = 0
+        k = rng.randint(2, 4)
+        for m in range(1, k + 1):
+            edges.add((hub, m)); edges.add((m, hub))            # overlapping 2-cycles through the hub
+        for m in range(k + 1, n - 1):
+            edges.add((m, m + 1))                               # a tail
+        edges.add((hub, k + 1))
+        edges.add((n - 1 if rng.random() < 0.3 else rng.randint(1, k), rng.randint(1, k)))
+        for _ in range(rng.randint(0, 4)):
+            a, b = rng.randrange(n), rng.randrange(n)
+            if a != b:
+                edges.add((a, b))
+        top = n
+        edges |= {(top, m) for m in range(0, k + 1)}            # a module importing every cycle member
+        graphs.append((n + 1, sorted(edges)))
+    reps = 10
+    reqs = []
+    for n, e in graphs:
+        r = {"op": "maxdepth", "modules": ["m%02d" % i for i in range(n)], "edges": [["m%02d" % a, "m%02d" % b] for a, b in e]}
+        reqs += [r] * reps
+    res = lib.driver(reqs)
+    bad = 0
+    for gi, (n, e) in enumerate(graphs):
+        vals = sorted({x.get("depth") for x in res[gi * reps:(gi + 1) * reps]})
+        if len(vals) > 1:
+            bad += 1
+            if bad <= 2:
+                ck.violation("the maximum dependency depth of one import graph differs between repetitions of the same computation: %s "
+                             "(%d modules, edges %s)" % (vals, n, e), {"kind": "maxdepth-repeat", "modules": n, "edges": e, "values": vals})
+    return len(graphs) * reps
+
+
 def main(tier):
     ck = lib.Check("C05", tier)
     ck.prepare("C05.v", clean=(tier != "quick" and os.environ.get("VERIF_CLEAN") == "1"))
@@ -536,6 +578,7 @@ def main(tier):
         ck.finish()
     model_ok = ck.make_ok or not any(f.startswith(("Det/", "Gen/")) for f in ck.failed_files)
     sites_part(ck, tier, model_ok)
+    ck.cov["maxdepth_repeats"] = depth_repeat_part(ck, tier)
     t1 = time.time()
     projects = cli_part(ck, tier)
     if tier != "quick":
